@@ -251,3 +251,17 @@ for name, n, fixmode, tier in (("c01_combined_dispatch_n3", 3, "false", "quick")
       functions=["ast_grep_config::combined::CombinedScan::new", "ast_grep_config::combined::CombinedScan::scan", "ast_grep_config::rule_core::RuleCore::do_match", "ast_grep_core::ops::Any::match_node_with_env"],
       assumes=[ST_TS, ST_SERDE, ST_MAP, ST_REGEX, "rules' kind sets exclude the ERROR kind 65535 (65536-step table growth loop is out of reach)"],
       shape=f"ANY({n})", bounds=f"every tree <= {n} nodes, kinds 1..8 or ERROR on nodes; 3 rules (kind; kind; any of two kinds), one with fix, given to CombinedScan::new in unsorted order, separate_fix={fixmode}; unwind 10")
+
+# ---------------------------------------------------------------- C11 / C12 config-level
+CFG_ASSUMES = [ST_TS, ST_SERDE, ST_MAP, ST_REGEX]
+H(prop="C11", name="c11_replace_regex_total", crate="config-h", module="c11_transform", stubbing=True, recursion=REC_RULE, timeout=1800, mem_gb=20,
+  decides="a rule with transform.replace either fails to load or scans a matching node without panicking, when Regex::new rejects the user's regex",
+  functions=["ast_grep_config::transform::transformation::Replace::compute", "ast_grep_config::transform::transformation::Transformation::parse", "ast_grep_config::rule_core::SerializableRuleCore::get_matcher", "ast_grep_config::rule_core::RuleCore::do_match"],
+  assumes=CFG_ASSUMES, shape="pattern f($A,$B) on f(p,qr)", bounds="one config family (source $A, any regex the regex crate rejects); unwind 10")
+for name, desc, tier in (("c12_check_var_str_t1", "string fix, one transform", "quick"), ("c12_check_var_obj_t1", "object-form fix, one transform", "quick"), ("c12_check_var_str_t2", "string fix, two chained transforms", "thorough")):
+    H(prop="C12", name=name, crate="config-h", module="c12_vars", stubbing=True, recursion=REC_RULE, tier=tier, timeout=2400 if tier == "quick" else 5400, mem_gb=20,
+      decides="get_matcher accepts <=> every variable used in constraints keys / transform sources / fix is defined and transforms are acyclic; and for an accepted rule the fix variable is replaced by its captured / transformed value",
+      functions=["ast_grep_config::check_var::check_rule_with_hint", "ast_grep_config::transform::Transform::deserialize", "ast_grep_config::rule::deserialize_env::TopologicalSort::visit",
+                 "ast_grep_config::fixer::Fixer::parse", "ast_grep_core::replacer::template::TemplateFix::generate_replacement", "ast_grep_config::transform::transformation::Substring::compute"],
+      assumes=CFG_ASSUMES, kf_keys=["object_fix_ignores_transform"], shape="pattern f($A,$B) on f(p,qr)",
+      bounds=f"{desc}; transform sources over {{$A,$B,$C,$T1,$T2}}, constraint key over {{none,A,B,C,T1}}, fix variable over {{A,B,C,T1,T2}} -- all symbolic; unwind 10")
